@@ -22,7 +22,10 @@ IsOrig(b) == [i \in BI |-> b[i] = "orig"]
 Init == bind = Orig /\ ctx = <<>> /\ G = {Ghost0} /\ bad = "" /\ hist = <<>>
 
 Observe(op, b2) ==
-  LET G2 == UNION {Succ(x, op, Blocks(b2), IsOrig(b2)) : x \in G} IN
+  \* design: the checked loader ends with pickle.loads(...), so the ML-only probe is refused through pickle.load
+  \* iff pickle.load or (when it is the checked loader) pickle.loads is the ML loader
+  LET mlb == [i \in BI |-> b2[i] = "ml" \/ (i = 1 /\ b2[1] = "checked" /\ b2[2] = "ml")]
+      G2 == UNION {Succ(x, op, Blocks(b2), IsOrig(b2), mlb) : x \in G} IN
   /\ bind' = b2 /\ G' = G2 /\ hist' = Append(hist, op)
   /\ bad' = IF G2 = {} THEN Clause(op) ELSE ""
 
